@@ -194,6 +194,7 @@ func checkC12(c *Ctx, r *Report) {
 	r.rule("C12.R3", "validate before effect: absent subscriber / absent session edge returns 4xx without reaching an effect; present edge dominates all effects", 4)
 	r.rule("C12.R4", "recharge: one notification to ue.NotifyUri naming the rating group on the found edge, none otherwise; RechargePut answers 204", 4)
 	r.rule("C12.R5", "every ProblemDetails status built in the processor is a 4xx constant", 8)
+	r.rule("C12.R7", "the notification URI registered at creation is not overwritten by update, release or recharge", 1)
 	r.rule("C12.R6", "after credit control has run, a 4xx answer reports a failed operation and is never a check of the request content", 6)
 
 	eff := newEffects(c)
@@ -413,6 +414,7 @@ func checkC12(c *Ctx, r *Report) {
 
 	// ---- R4 recharge
 	checkRecharge(c, r)
+	checkNotifyUriWriters(c, r, "C12.R7")
 
 	// ---- R5 status constants
 	checkProblemStatuses(c, r, "C12.R5")
